@@ -56,7 +56,8 @@ RECURSIVE SumTo(_, _)
 \* f[1] + ... + f[n]
 SumTo(f, n) == IF n = 0 THEN 0 ELSE f[n] + SumTo(f, n - 1)
 \* sum of f[i] over the index set I \subseteq 1..n
-SumSet(f, I, n) == SumTo([i \in 1..n |-> IF i \in I THEN f[i] ELSE 0], n)
+SumSet(f, I, n) == LET g == [i \in 1..n |-> IF i \in I THEN f[i] ELSE 0]
+                   IN  SumTo(g, n)
 
 --------------------------------------------------------------------------
 (* What a cell contributes to an aggregate over a RANGE.                   *)
@@ -74,14 +75,13 @@ ErrIdx(q)     == {i \in DOMAIN q : IsErr(q[i])}
 ErrSet(q)     == {q[i] : i \in ErrIdx(q)}
 HasErr(q)     == ErrIdx(q) # {}
 FirstErr(q)   == q[MinOf(ErrIdx(q))]          \* first in sequence order
-KSeq(q)       == [i \in DOMAIN q |-> IF IsNum(q[i]) \/ IsBool(q[i])
-                                     THEN KOf(q[i]) ELSE 0]
 --------------------------------------------------------------------------
 (* The aggregate VALUES of a sequence of cells q that holds no error       *)
 (* value.  Stated over index sets, not as folds, so that the inductive     *)
 (* (fold) characterisation is a law to be checked (Aggregates!FoldStep).   *)
-KsOf(q, cb)   == {KSeq(q)[i] : i \in NumIdx(q, cb)}
-SumK(q, cb)   == SumSet(KSeq(q), NumIdx(q, cb), Len(q))
+KsOf(q, cb)   == {KOf(q[i]) : i \in NumIdx(q, cb)}
+SumK(q, cb)   == LET f == [i \in 1..Len(q) |-> IF Counts(q[i], cb) THEN KOf(q[i]) ELSE 0]
+                 IN  SumTo(f, Len(q))
 CountN(q, cb) == Cardinality(NumIdx(q, cb))
 
 VSum(q, cb)   == R(SumK(q, cb), Scale)                 \* nothing numeric: 0
